@@ -107,6 +107,17 @@ class Arr04:
                 data_dmg.add((f['blocks'][i][1], d, f['sub']))
                 data_dmg.add((f['blocks'][j][1], d, f['sub']))
                 desc.append('swap %s:%s[%d]<->[%d]' % (d, sub2rel(f['sub']), i, j))
+        # reduced hash sizes: a corrupted block may collide with the recorded hash (2^-16 per block with 2 bytes); the
+        # theorems are conditional on collision freedom, so such a trial is counted and set aside, not judged
+        hs = self.st['hashsize']
+        if hs < 16 and self.st['hash'] == 'murmur3':
+            for pos, d, sub in data_dmg:
+                f = [x for x in self.st['disks'][d]['files'] if x['sub'] == sub][0]
+                data = open(a.path(d, sub2rel(sub)), 'rb').read()
+                for i, (st_, p_, h) in enumerate(f['blocks']):
+                    if p_ == pos and murmur3_x86_128(data[i * a.bs:min((i + 1) * a.bs, f['size'])], self.st['seed'])[:hs] == h:
+                        self.n['collisions'] += 1
+                        return True
         replay = {'geom': self.geom, 'seed': self.seed, 'recipe': self.recipe, 'damage': desc,
                   'dmg': [[y if not isinstance(y, dict) else y['sub'].decode('latin1') for y in x] for x in dmg]}
         used = set(self.used)
@@ -288,7 +299,7 @@ def main(tier, replay=None):
         return chk.finish()
 
     jobs = [(g, rng.getrandbits(32)) for g in geoms]
-    tot = {'trials': 0, 'model': 0}
+    tot = {'trials': 0, 'model': 0, 'collisions': 0}
     samples = []
 
     def one(job):
@@ -301,11 +312,12 @@ def main(tier, replay=None):
         return A
     with cf.ThreadPoolExecutor(max_workers=min(8, NCPU)) as ex:
         for A in ex.map(one, jobs):
-            tot['trials'] += A.n['trials']; tot['model'] += A.n['model']
+            tot['trials'] += A.n['trials']; tot['model'] += A.n['model']; tot['collisions'] += A.n['collisions']
             samples += A.samples[:1]
     chk.cov.update({'evaluations': tot['trials'] * 4, 'distinct_nontrivial': tot['trials'],
                     'rule': 'arrays %s (nd, np, z, hash size, files, holes from a delete+sync); EVERY file block and EVERY parity block of every level corrupted alone with shapes from %s (size+mtime kept), swaps of two full blocks of a file, random combinations of 2-5 blocks, and the undamaged array; per trial: exact restore, real check / check -a / scrub -p full / status -G, tag sets compared for equality with the prediction made from the damage list, exit statuses, bad marks from status and from the independently decoded content file; non-trivial = trials (4 commands each)' % ([g[:4] for g in geoms], SHAPES),
-                    'commands_replayed_by_model': tot['model'], 'traces_validated_against_impl': tot['model']})
+                    'commands_replayed_by_model': tot['model'], 'traces_validated_against_impl': tot['model'],
+                    'trials_set_aside_for_a_hash_collision_of_a_reduced_hash': tot['collisions']})
     chk.cov['samples'] = samples
     if ob['failed'] and not chk.violations:
         chk.violation('obligation', 'proof obligation of C04 no longer checks: %s' % ob['failed'][0],
